@@ -88,47 +88,54 @@ def _run_check(prop, tier, plan, base_seed, njobs, repo, scratch, t0):
 
     harness_problems = []
     violations = []       # dicts with sig, msg, seed, index, tape, detail, cfg, env
-    # --- abnormal terminations: attribute to the seed that was running, confirm alone
+    # --- abnormal terminations: attribute to the seed that was running, confirm alone (all confirmations and the
+    # remainders of the dead workers' slices run in parallel; a remainder gets what is left of the layer's budget)
     extra_jobs = []
+    dead = []
     for j in done:
         if j.status == "ok":
             continue
         bc = j.breadcrumb()
         tail = j.log_tail()
-        if j.status == "killed" or bc is None:
+        if bc is None:
             harness_problems.append(f"worker {j.cfg['plan_name']} {j.status} (rc={getattr(j, 'rc', None)}) before any run; log tail:\n{tail}")
             continue
         idx, seed = bc
-        print(f"[dsim] worker {j.cfg['plan_name']} died (rc={j.rc}) at index {idx}; confirming alone", flush=True)
-        cj = runner.single_run_job(j.cfg, j.env, scratch, f"confirm-{j.cfg['plan_name']}-{idx}",
-                                   start=idx, stop=idx + 1, step=1, hard_timeout=900)
-        runner.run_jobs([cj], 1)
+        print(f"[dsim] worker {j.cfg['plan_name']} {j.status} (rc={getattr(j, 'rc', None)}) at index {idx}; confirming alone", flush=True)
+        cj = runner.single_run_job(j.cfg, j.env, scratch, f"confirm-{j.cfg['plan_name']}-{idx}-{os.path.basename(j.cfg['out'])}",
+                                   start=idx, stop=idx + 1, step=1, hard_timeout=300, budget_s=280)
+        rest = dict(j.cfg)
+        rest["start"] = idx + j.cfg["step"]
+        rj = None
+        if rest["start"] < rest["stop"] and len(dead) < 6:
+            rest["budget_s"] = max(30, int(j.cfg["budget_s"] * 0.5))
+            rest["hard_timeout"] = rest["budget_s"] + 200
+            rj = runner.Job(dict(rest, out=os.path.join(scratch, f"rest-{os.path.basename(j.cfg['out'])}")), j.env,
+                            kill_after=rest["hard_timeout"] + 60)
+        dead.append((j, idx, seed, tail, cj, rj))
+    if dead:
+        runner.run_jobs([d[4] for d in dead] + [d[5] for d in dead if d[5] is not None], njobs)
+    for j, idx, seed, tail, cj, rj in dead:
         if cj.status == "ok":
             res = cj.result
             if res["violations"] or res["harness_errors"]:
-                # it did not die alone but produced something: take it
-                j2 = cj
-                j2.cfg["plan_name"] = j.cfg["plan_name"]
-                extra_jobs.append(j2)
+                cj.cfg["plan_name"] = j.cfg["plan_name"]      # it did not die alone but produced something: take it
+                extra_jobs.append(cj)
             else:
-                harness_problems.append(f"worker {j.cfg['plan_name']} died at index {idx} (rc={j.rc}) but the run alone "
+                harness_problems.append(f"worker {j.cfg['plan_name']} {j.status} at index {idx} (rc={getattr(j, 'rc', None)}) but the run alone "
                                         f"completed: non-reproducible abnormal termination; log tail:\n{tail}")
         else:
+            what = "hung (killed by the watchdog)" if (cj.status == "killed" or getattr(cj, "rc", 0) == 1 and "Timeout" in cj.log_tail()) else "died"
             sig = f"{prop}|{j.cfg['layer']}-{j.cfg['mode']}|abnormal-termination"
-            violations.append({"sig": sig, "msg": f"interpreter died (rc={j.rc}) while running index {idx}; reproduced alone (rc={getattr(cj, 'rc', None)}); log tail: {tail[-600:]}",
+            violations.append({"sig": sig, "msg": f"interpreter {what} (rc={getattr(j, 'rc', None)}) while running index {idx}; reproduced alone "
+                                                  f"(rc={getattr(cj, 'rc', None)}); log tail: {tail[-600:]}",
                                "seed": seed, "index": idx, "tape": None, "detail": None,
                                "cfg": j.cfg, "env": _env_keys(j.env), "base_seed": base_seed})
-        # the rest of that worker's slice
-        rest = dict(j.cfg)
-        rest["start"] = idx + j.cfg["step"]
-        if rest["start"] < rest["stop"]:
-            rj = runner.Job(dict(rest, out=os.path.join(scratch, f"rest-{os.path.basename(j.cfg['out'])}")), j.env,
-                            kill_after=j.kill_after)
-            runner.run_jobs([rj], 1)
+        if rj is not None:
             if rj.status == "ok":
                 extra_jobs.append(rj)
             else:
-                harness_problems.append(f"worker {j.cfg['plan_name']} died again at {rj.breadcrumb()} after restart; log tail:\n{rj.log_tail()}")
+                print(f"[dsim] worker {j.cfg['plan_name']} failed again at {rj.breadcrumb()} after restart; its remaining slice is dropped", flush=True)
     ok_jobs = [j for j in done if j.status == "ok"] + extra_jobs
 
     # --- aggregate
